@@ -104,13 +104,21 @@ class AbstractExcelInPython(ABC):
         # int() would cut off the fractional part of a float operand (1.5 > 1.2 must stay true)
         return operand if isinstance(operand, float) else int(operand)
 
+    @staticmethod
+    def _to_float(operand: Any) -> float:
+        number = float(operand)
+        # float() also reads the texts 'nan' and 'inf'; in Excel they are plain texts, and NaN breaks every comparison law
+        if isinstance(operand, str) and (number != number or number in (float('inf'), float('-inf'))):
+            raise ValueError('not a number: ' + operand)
+        return number
+
     def _compare(self, operator: str, left_operand: str | int | float | datetime.date | datetime.datetime,
                           right_operand: str | int | float | datetime.date | datetime.datetime) -> bool:
         try:
             return self._by_operator(operator, self._to_number(left_operand), self._to_number(right_operand))
         except (ValueError, TypeError):
             try:
-                return self._by_operator(operator, float(left_operand), float(right_operand))
+                return self._by_operator(operator, self._to_float(left_operand), self._to_float(right_operand))
             except (ValueError, TypeError):
                 try:
                     # Приводим date к datetime для удобного сравнения
